@@ -57,6 +57,8 @@ def check_case(case, ctr):
             bad('exactly-once', name, got)
         if set(got) != exp:
             bad('concept-set', name, got)
+    if V:
+        return V
     cl = algorithms.get_concepts(ctx)
     if not isinstance(cl, list):
         bad('get_concepts-is-list', 'get_concepts', [])
